@@ -18,16 +18,22 @@ Record behaviour := mkBeh {
   view_check_wraps : bool;
   (** appendix B.3 (pinned): unspecified dimensions are padded with first / last coordinate and converted
       like a request, which loses the last element in Exclusive mode *)
-  pads_with_positions : bool
+  pads_with_positions : bool;
+  (** the templates DataSet::getData(T &value, offset) / setData(const T &value, offset) (include/nix/DataSet.hpp) hand an EMPTY
+      count to ioRead / ioWrite for a scalar value and an empty offset (setData: for every offset); a DataView reads an
+      empty count as "the whole window" and transfers window-many elements from / to the address of one scalar *)
+  scalar_template_empty_count : bool
 }.
 
-Definition code_today : behaviour := mkBeh true true true true true.
-Definition repaired : behaviour := mkBeh false false false false false.
-Definition repaired_except_pinned : behaviour := mkBeh false false false false true.
+Definition code_today : behaviour := mkBeh true true true true true true.
+Definition repaired : behaviour := mkBeh false false false false false false.
+Definition repaired_except_pinned : behaviour := mkBeh false false false false true false.
+(** /repo at e3eed7c: the C17 patches are in, the scalar templates are not repaired yet *)
+Definition repo_e3eed7c : behaviour := mkBeh false false false false true true.
 
 (** THE SWITCH: which behaviour the library under test has; the extracted model driver replays this one.
-    Set to [repaired_except_pinned] once the proposed patches (notes/proposed-fixes/C17-*.patch) have landed. *)
-Definition current_behaviour : behaviour := repaired_except_pinned.
+    Set back to [repaired_except_pinned] once notes/proposed-fixes/C16-dataview-scalar-template.patch has landed. *)
+Definition current_behaviour : behaviour := repo_e3eed7c.
 
 (** the switches that a patch can turn off *)
 Definition slices_repaired (B : behaviour) : Prop :=
